@@ -63,6 +63,18 @@ fn dagger(t: &mut Tape, ctx: &mut Ctx, al: gen::Alpha) -> CheckResult {
     let got = wf(ctx, "lax-dagger", from_lax(&to_lax(&lf).dagger()), "lax f†")?;
     let want = Lax { d: f.dagger(), q: lf.q.clone() };
     ensure!(ctx, got == want, "lax-dagger", "lax dagger\n  got : {}\n  want: {}", got.pretty(), want.pretty());
+    // lax dagger distributes over the lax tensor (all three spellings of the tensor), exactly
+    {
+        use open_hypergraphs::category::Monoidal;
+        let (a, b) = (to_lax(&lf), to_lax_d(g));
+        let want = Lax { d: f.juxtapose(g).dagger(), q: lf.q.clone() };
+        for (name, tensor) in [("tensor", a.tensor(&b)), ("|", &a | &b), ("Monoidal::tensor", Monoidal::tensor(&a, &b))] {
+            let l = wf(ctx, "lax-dagger", from_lax(&tensor.dagger()), "lax (f|g)†")?;
+            ensure!(ctx, l == want, "lax-dagger-tensor", "lax (f {name} g)† is not the juxtaposition with swapped interfaces\n  got : {}\n  want: {}", l.pretty(), want.pretty());
+        }
+        let r = wf(ctx, "lax-dagger", from_lax(&a.dagger().tensor(&b.dagger())), "lax f†|g†")?;
+        ensure!(ctx, r == want, "lax-dagger-tensor", "lax f†|g† differs from (f|g)†\n  got : {}\n  want: {}", r.pretty(), want.pretty());
+    }
     // lax contravariance with operands that still carry pending unifications
     ctx.sub("lax-dagger-contravariant");
     {
